@@ -433,3 +433,387 @@ def translate_function(fn, coq_name, params, rettype, consts, funcs, self_attr=N
     return 'Definition %s %s : %s :=\n  %s.\n' % (coq_name, sig, COQ_TYPES[rettype], body)
 
 
+
+# ===========================================================================
+# Numeric code (units.py, param_helper.py, color.py, colorsys): additive extension.
+#
+# The same Python text is rendered twice: over binary64 (mode 'F', PrimFloat, bit-exact,
+# same association order) and over exact rationals (mode 'Q', the formulas read as real
+# arithmetic).  Python type 'float' below means "a number" (register values are modelled
+# by one numeric type per mode, see coq/Base/PyNum.v); 'int'/'rounded' are Z; 'color' is
+# a 4-list of numbers, 'zcolor' a 4-list of ints, 'triple' a 3-tuple of numbers.
+
+from fractions import Fraction
+
+
+def q_literal(fr):
+    fr = Fraction(fr)
+    num = '(%d)' % fr.numerator if fr.numerator < 0 else '%d' % fr.numerator
+    return '(Qmake %s %d)' % (num, fr.denominator)
+
+
+NUM_OPS = {
+    'F': {'Add': 'PrimFloat.add', 'Sub': 'PrimFloat.sub', 'Mult': 'PrimFloat.mul', 'Div': 'PrimFloat.div',
+          'Mod': 'py_fmod', 'opp': 'PrimFloat.opp', 'ltb': 'PrimFloat.ltb', 'leb': 'PrimFloat.leb',
+          'eqb': 'PrimFloat.eqb', 'z2f': 'z2f', 'round': 'py_round', 'trunc': 'py_trunc',
+          'max': 'py_max', 'min': 'py_min', 'num': 'float', 'suffix': '', 'zero': 'PrimFloat.zero'},
+    'Q': {'Add': 'Qplus', 'Sub': 'Qminus', 'Mult': 'Qmult', 'Div': 'Qdiv',
+          'Mod': 'py_fmod_Q', 'opp': 'Qopp', 'ltb': 'Qltb', 'leb': 'Qleb',
+          'eqb': 'Qeqb', 'z2f': 'z2q', 'round': 'py_round_Q', 'trunc': 'py_trunc_Q',
+          'max': 'py_max_Q', 'min': 'py_min_Q', 'num': 'Q', 'suffix': '_Q', 'zero': '(Qmake 0 1)'},
+}
+
+
+def num_coq_type(t, mode):
+    n = NUM_OPS[mode]['num']
+    return {'float': n, 'int': 'Z', 'rounded': 'Z', 'bool': 'bool', 'color': '(color4 %s)' % n,
+            'zcolor': '(color4 Z)', 'triple': '(%s * %s * %s)' % (n, n, n)}[t]
+
+
+class NumExpr(Expr):
+    def __init__(self, env, consts=None, funcs=None, mode='F'):
+        super().__init__(env, consts, funcs)
+        self.mode = mode
+        self.o = NUM_OPS[mode]
+        self.lambdas = {}     # name -> (nargs, rettype)
+
+    def tr_Constant(self, n):
+        v = n.value
+        if isinstance(v, float) and not isinstance(v, bool):
+            import math
+            if math.isinf(v) or math.isnan(v):
+                fail(n, 'inf/nan literal')
+            if self.mode == 'F':
+                return (coq_float(v), 'float')
+            return (q_literal(Fraction(v)), 'float')
+        return super().tr_Constant(n)
+
+    def as_float(self, t):
+        s, ty = t
+        if ty == 'float':
+            return s
+        if ty in ('int', 'rounded'):
+            return '(%s %s)' % (self.o['z2f'], s)
+        raise Unsupported('cannot use %s as a number: %s' % (ty, s))
+
+    def as_bool(self, t, node):
+        s, ty = t
+        if ty == 'float':
+            # Python truthiness of a number: x != 0 (nan is true)
+            return '(negb (%s %s %s))' % (self.o['eqb'], s, self.o['zero'])
+        if ty == 'rounded':
+            return '(negb (Z.eqb %s 0))' % s
+        return super().as_bool(t, node)
+
+    def tr_UnaryOp(self, n):
+        if isinstance(n.op, ast.USub):
+            s, ty = self.tr(n.operand)
+            if ty in ('int', 'rounded'):
+                return ('(Z.opp %s)' % s, 'int')
+            if ty == 'float':
+                return ('(%s %s)' % (self.o['opp'], s), 'float')
+            fail(n, 'unary minus')
+        return super().tr_UnaryOp(n)
+
+    def tr_BinOp(self, n):
+        a, b = self.tr(n.left), self.tr(n.right)
+        opn = type(n.op).__name__
+        ints = ('int', 'rounded')
+        if a[1] in ints and b[1] in ints:
+            f = {'Add': 'Z.add', 'Sub': 'Z.sub', 'Mult': 'Z.mul', 'Mod': 'Z.modulo'}.get(opn)
+            if f is not None:
+                if opn == 'Mod' and not (isinstance(n.right, ast.Constant) and isinstance(n.right.value, int) and n.right.value > 0):
+                    fail(n, 'int % with a divisor that is not a positive constant')
+                return ('(%s %s %s)' % (f, a[0], b[0]), 'int')
+        if a[1] in ints + ('float',) and b[1] in ints + ('float',):
+            f = self.o.get(opn)
+            if f is None or opn not in ('Add', 'Sub', 'Mult', 'Div', 'Mod'):
+                fail(n, 'numeric operator')
+            if opn in ('Div', 'Mod'):
+                # the model has no ZeroDivisionError: the divisor must be a non-zero constant
+                # or be guarded in the source (colorsys: rangec, maxc); callers vouch via allow_div
+                if not (self.is_nonzero_const(n.right) or getattr(self, 'allow_div', False)):
+                    fail(n, 'division by a non-constant')
+            return ('(%s %s %s)' % (f, self.as_float(a), self.as_float(b)), 'float')
+        fail(n, 'binary operator on %s,%s' % (a[1], b[1]))
+
+    def is_nonzero_const(self, node):
+        if isinstance(node, ast.Constant) and isinstance(node.value, (int, float)) and not isinstance(node.value, bool):
+            return node.value != 0
+        return False
+
+    def cmp1(self, op, a, b, node):
+        opn = type(op).__name__
+        ints = ('int', 'rounded')
+        ta, tb = a[1], b[1]
+        if ta in ints and tb in ints:
+            return super().cmp1(op, (a[0], 'int'), (b[0], 'int'), node)
+        if ta in ints + ('float',) and tb in ints + ('float',):
+            fa, fb = self.as_float(a), self.as_float(b)
+            o = self.o
+            if opn == 'Lt':
+                return '(%s %s %s)' % (o['ltb'], fa, fb)
+            if opn == 'LtE':
+                return '(%s %s %s)' % (o['leb'], fa, fb)
+            if opn == 'Gt':
+                return '(%s %s %s)' % (o['ltb'], fb, fa)
+            if opn == 'GtE':
+                return '(%s %s %s)' % (o['leb'], fb, fa)
+            if opn == 'Eq':
+                return '(%s %s %s)' % (o['eqb'], fa, fb)
+            if opn == 'NotEq':
+                return '(negb (%s %s %s))' % (o['eqb'], fa, fb)
+        return super().cmp1(op, a, b, node)
+
+    def tr_Subscript(self, n):
+        v = self.tr(n.value)
+        idx = n.slice
+        if v[1] == 'color' and isinstance(idx, ast.Constant) and isinstance(idx.value, int) and 0 <= idx.value < 4:
+            return ('(c%d %s)' % (idx.value, v[0]), 'float')
+        fail(n, 'subscript')
+
+    def tr_List(self, n):
+        if len(n.elts) != 4:
+            fail(n, 'list literal that is not a colour')
+        parts = [self.as_float(self.tr(e)) for e in n.elts]
+        return ('(mkcolor %s)' % ' '.join(parts), 'color')
+
+    def tr_Tuple(self, n):
+        if len(n.elts) != 3:
+            fail(n, 'tuple that is not a triple')
+        parts = [self.as_float(self.tr(e)) for e in n.elts]
+        return ('(%s)' % ', '.join(parts), 'triple')
+
+    def tr_ListComp(self, n):
+        # [f(x) for x in color]
+        if len(n.generators) != 1:
+            fail(n, 'comprehension')
+        g = n.generators[0]
+        if g.ifs or g.is_async or not isinstance(g.target, ast.Name):
+            fail(n, 'comprehension')
+        it = self.tr(g.iter)
+        if it[1] != 'color':
+            fail(n, 'comprehension over something that is not a colour')
+        saved = dict(self.env)
+        self.env[g.target.id] = 'float'
+        body = self.tr(n.elt)
+        self.env = saved
+        if body[1] in ('int', 'rounded'):
+            return ('(cmap (fun %s => %s) %s)' % (g.target.id, body[0], it[0]), 'zcolor')
+        if body[1] == 'float':
+            return ('(cmap (fun %s => %s) %s)' % (g.target.id, body[0], it[0]), 'color')
+        fail(n, 'comprehension element type')
+
+    def tr_Call(self, n):
+        f = n.func
+        if n.keywords:
+            fail(n, 'keyword arguments')
+        if isinstance(f, ast.Name):
+            name = f.id
+            if name in self.lambdas:
+                nargs, rt = self.lambdas[name]
+                if len(n.args) != nargs:
+                    fail(n, 'arity')
+                args = [self.as_float(self.tr(a)) for a in n.args]
+                return ('(%s %s)' % (name, ' '.join(args)), rt)
+            if name == 'float' and len(n.args) == 1:
+                return (self.as_float(self.tr(n.args[0])), 'float')
+            if name == 'int' and len(n.args) == 1:
+                a = self.tr(n.args[0])
+                if a[1] == 'float':
+                    return ('(%s %s)' % (self.o['trunc'], a[0]), 'int')
+                if a[1] in ('int', 'rounded'):
+                    return (a[0], 'int')
+                fail(n, 'int() of ' + a[1])
+            if name == 'round' and len(n.args) == 1:
+                a = self.tr(n.args[0])
+                if a[1] in ('int', 'rounded'):
+                    return (a[0], 'rounded')       # round(int) is that int
+                return ('(%s %s)' % (self.o['round'], self.as_float(a)), 'rounded')
+            if name in ('max', 'min') and len(n.args) >= 2:
+                # Python: the result starts as the first argument and is replaced by a later
+                # one only if that one is strictly greater (smaller)
+                args = [self.as_float(self.tr(a)) for a in n.args]
+                acc = args[0]
+                for nxt in args[1:]:
+                    acc = '(%s %s %s)' % (self.o[name], acc, nxt)
+                return (acc, 'float')
+        key = None
+        try:
+            key = self.dotted(f)
+        except Unsupported:
+            pass
+        if key is not None:
+            for k in (key, key.split('.')[-1]):
+                if k in self.funcs:
+                    cn, argtys, rt = self.funcs[k]
+                    if len(argtys) != len(n.args):
+                        fail(n, 'arity')
+                    out = []
+                    for a, want in zip(n.args, argtys):
+                        t = self.tr(a)
+                        if want == 'float':
+                            out.append(self.as_float(t))
+                        elif t[1] == want:
+                            out.append(t[0])
+                        else:
+                            fail(n, 'argument type %s, wanted %s' % (t[1], want))
+                    return ('(%s%s %s)' % (cn, self.o['suffix'], ' '.join(out)), rt)
+        fail(n, 'call')
+
+
+def is_none_guard(s):
+    """`if X is None: return None` (the @noneable convention; None is outside the model)."""
+    return (isinstance(s, ast.If) and not s.orelse and len(s.body) == 1
+            and isinstance(s.body[0], ast.Return)
+            and isinstance(s.body[0].value, ast.Constant) and s.body[0].value.value is None
+            and isinstance(s.test, ast.Compare) and len(s.test.ops) == 1 and isinstance(s.test.ops[0], ast.Is)
+            and isinstance(s.test.comparators[0], ast.Constant) and s.test.comparators[0].value is None)
+
+
+class NumBody(Body):
+    """Statement forms of the numeric code on top of Body."""
+
+    def __init__(self, ex, rettype, fallthrough=None):
+        super().__init__(ex, rettype, None)
+        self.fallthrough = fallthrough
+
+    def block(self, stmts, rest=None):
+        if not stmts:
+            if rest is None and self.fallthrough is not None:
+                return self.fallthrough
+            return super().block(stmts, rest)
+        s, tail = stmts[0], stmts[1:]
+        if is_none_guard(s):
+            return self.block(tail, rest)
+        if isinstance(s, ast.If):
+            # every branch of the if/elif/else tree assigns the same single name
+            tree = self.assign_tree([s])
+            if tree is not None:
+                text, ty = self.render_tree(tree)
+                self.ex.env[tree[1]] = ty
+                return '(let %s := %s in\n   %s)' % (tree[1], text, self.block(tail, rest))
+            # `if c: return X` followed by more statements, possibly the end of the function
+            c = self.ex.as_bool(self.ex.tr(s.test), s.test)
+            saved = dict(self.ex.env)
+            try:
+                after = self.block(tail, rest)
+            except Unsupported:
+                if tail:
+                    raise
+                after = None      # end of the function: every branch must return
+            self.ex.env = dict(saved)
+            then = self.block(s.body, after)
+            self.ex.env = dict(saved)
+            els = self.block(s.orelse, after) if s.orelse else after
+            self.ex.env = saved
+            return '(if %s\n   then %s\n   else %s)' % (c, then, els)
+        if isinstance(s, ast.Assign) and len(s.targets) == 1:
+            tgt = s.targets[0]
+            if isinstance(tgt, ast.Name) and isinstance(s.value, ast.Lambda):
+                lam = s.value
+                if lam.args.vararg or lam.args.kwarg or lam.args.defaults or lam.args.kwonlyargs:
+                    fail(s, 'lambda signature')
+                names = [a.arg for a in lam.args.args]
+                saved = dict(self.ex.env)
+                for nm in names:
+                    self.ex.env[nm] = 'float'
+                body = self.ex.tr(lam.body)
+                self.ex.env = saved
+                self.ex.lambdas[tgt.id] = (len(names), body[1])
+                return '(let %s := (fun %s => %s) in\n   %s)' % (tgt.id, ' '.join(names), body[0], self.block(tail, rest))
+            if isinstance(tgt, (ast.Tuple, ast.List)) and all(isinstance(e, ast.Name) for e in tgt.elts):
+                names = [e.id for e in tgt.elts]
+                v = s.value
+                # a, b, c = [coll[i] <op> K for i in range(0, 3)]
+                if isinstance(v, ast.ListComp) and len(names) == 3:
+                    g = v.generators[0] if len(v.generators) == 1 else None
+                    ok = (g is not None and not g.ifs and isinstance(g.target, ast.Name)
+                          and isinstance(g.iter, ast.Call) and isinstance(g.iter.func, ast.Name) and g.iter.func.id == 'range'
+                          and [getattr(a, 'value', None) for a in g.iter.args] == [0, 3])
+                    if not ok:
+                        fail(s, 'unpacking of a comprehension that is not over range(0, 3)')
+                    text = ''
+                    lets = []
+                    for k, nm in enumerate(names):
+                        elt = IndexSubst(g.target.id, k).visit(ast.parse(ast.unparse(v.elt), mode='eval').body)
+                        lets.append((nm, self.ex.as_float(self.ex.tr(elt))))
+                    for nm, _ in lets:
+                        self.ex.env[nm] = 'float'
+                    inner = self.block(tail, rest)
+                    for nm, e in reversed(lets):
+                        inner = '(let %s := %s in\n   %s)' % (nm, e, inner)
+                    return inner
+                t = self.ex.tr(v)
+                if t[1] == 'triple' and len(names) == 3:
+                    for nm in names:
+                        self.ex.env[nm] = 'float'
+                    return "(let '(%s) := %s in\n   %s)" % (', '.join(names), t[0], self.block(tail, rest))
+                if t[1] == 'color' and len(names) == 4:
+                    for nm in names:
+                        self.ex.env[nm] = 'float'
+                    inner = self.block(tail, rest)
+                    for k, nm in reversed(list(enumerate(names))):
+                        inner = '(let %s := (c%d %s) in\n   %s)' % (nm, k, t[0], inner)
+                    return inner
+                fail(s, 'tuple assignment')
+        return super().block(stmts, rest)
+
+    def assign_tree(self, body):
+        if len(body) != 1:
+            return None
+        s = body[0]
+        if isinstance(s, ast.Assign) and len(s.targets) == 1 and isinstance(s.targets[0], ast.Name):
+            return ('leaf', s.targets[0].id, s.value)
+        if isinstance(s, ast.If) and s.orelse:
+            a, b = self.assign_tree(s.body), self.assign_tree(s.orelse)
+            if a is not None and b is not None and a[1] == b[1]:
+                return ('if', a[1], s.test, a, b)
+        return None
+
+    def render_tree(self, tree):
+        if tree[0] == 'leaf':
+            return self.ex.tr(tree[2])
+        c = self.ex.as_bool(self.ex.tr(tree[2]), tree[2])
+        a, b = self.render_tree(tree[3]), self.render_tree(tree[4])
+        if a[1] != b[1]:
+            a, b = (self.ex.as_float(a), 'float'), (self.ex.as_float(b), 'float')
+        return ('(if %s then %s else %s)' % (c, a[0], b[0]), a[1])
+
+    def ret(self, value):
+        v = self.ex.tr(value)
+        want = self.rettype
+        if want == 'float':
+            return self.ex.as_float(v)
+        if want == 'int' and v[1] in ('int', 'rounded'):
+            return v[0]
+        if want == 'bool':
+            return self.ex.as_bool(v, value)
+        if v[1] != want:
+            fail(value, 'return type %s, wanted %s' % (v[1], want))
+        return v[0]
+
+
+class IndexSubst(ast.NodeTransformer):
+    """Replace the comprehension variable by a constant index."""
+    def __init__(self, name, k):
+        self.name, self.k = name, k
+
+    def visit_Name(self, node):
+        if node.id == self.name:
+            return ast.copy_location(ast.Constant(self.k), node)
+        return node
+
+
+def translate_num_function(fn, coq_name, params, rettype, consts, funcs, mode, fallthrough=None, allow_div=False):
+    """params: list of (python name, type); rendered in `mode` ('F' binary64 / 'Q' rationals)."""
+    args = [a.arg for a in fn.args.args if a.arg != 'self']
+    if args != [p for p, _ in params]:
+        raise Unsupported('%s: parameters are %s, expected %s' % (fn.name, args, [p for p, _ in params]))
+    if fn.args.vararg or fn.args.kwarg or fn.args.kwonlyargs or fn.args.defaults:
+        raise Unsupported('%s: unsupported signature' % fn.name)
+    ex = NumExpr(dict(params), consts, funcs, mode)
+    ex.allow_div = allow_div
+    body = NumBody(ex, rettype, fallthrough).block(fn.body)
+    sig = ' '.join('(%s : %s)' % (p, num_coq_type(t, mode)) for p, t in params)
+    return 'Definition %s%s %s : %s :=\n  %s.\n' % (coq_name, NUM_OPS[mode]['suffix'], sig, num_coq_type(rettype, mode), body)
